@@ -581,9 +581,12 @@ class FA:
             for fld in parts[1:]:
                 base = self.field(base, fld)
             v2 = self.inst(val, binding, n, memo)
+            # an attribute store that the callee only has through name-resolved (CHA) edges stays "via" in the caller
+            flags = [v for pth, k, v in cs.mod if pth == tpath and k == 'attr:' + attr]
+            v_attr = bool(flags) and all(flags)
             for a in base:
                 if a[0] == 'loc':
-                    self.record((a[1], 'attr:' + attr, via))
+                    self.record((a[1], 'attr:' + attr, via or v_attr))
                     self.s.attr_stores.add((a[1], attr, v2))
                 elif a[0] == 'obj':
                     h = self.heap.setdefault(a[1], {})
